@@ -20,6 +20,18 @@ func extraMode(mode string, n int, r *rand.Rand) bool {
 		for i := 0; i < n; i++ {
 			emit(genE2E11(r))
 		}
+	case "replay13":
+		for _, x := range replay13() {
+			emit(x)
+		}
+	case "expr":
+		for i := 0; i < n; i++ {
+			emit(genExprCase(r))
+		}
+	case "e2e13":
+		for i := 0; i < n; i++ {
+			emit(genE2E13(r))
+		}
 	default:
 		return false
 	}
